@@ -495,6 +495,12 @@ impl Lock {
     fn compare(&mut self, out: &mut RunOut, action: &str) -> bool {
         // whatever is due at this very instant (zero time-outs, zero delays) has happened in the implementation
         self.model.advance(0);
+        if self.model.order_dependent.is_some() {
+            // two things were ready at once in the idle loop and no property says which goes first:
+            // nothing after this point can be predicted, the run ends without a verdict on the rest
+            out.probe("order_dependent_tie_run_ended");
+            return false;
+        }
         let effects: Vec<Effect> = self.model.effects[self.eff_pos..].to_vec();
         self.eff_pos = self.model.effects.len();
         let mut exp_states = Vec::new();
